@@ -78,6 +78,15 @@ class SplitVal:
             return SplitVal(self.s, self.sep, drop_last=True)
         raise Unsupported("slice of split()", node)
 
+    def contains(self, x, st, ex):
+        """`x in s.split(sep)` for a constant, separator-free x and a one-character separator"""
+        from .pathmodel import has_component
+        xs = z3.simplify(x.t)
+        if not (z3.is_string_value(xs) and z3.is_string_value(z3.simplify(self.sep)) and z3.simplify(self.sep).as_string() == "/"
+                and "/" not in xs.as_string() and not self.drop_last):
+            raise Unsupported("membership in split()")
+        return has_component(self.s, xs.as_string())
+
     def length(self, st, ex):
         self.facts(st, ex)
         n = seg_count(self.s, self.sep)
